@@ -106,7 +106,7 @@ def _work(item):
         shape_no = 0
         for shape in sigs.call_shapes(s, surplus_pos=1, surplus_kw=1):
             a0, k0 = sigs.build_call(shape)
-            if sigs.interpreter_binding(s, a0, k0) is None:
+            if sigs.interpreter_binding(s, a0, k0, method=(kind == "method")) is None:
                 continue
             shape_no += 1
             for compress in compress_opts if tier != "quick" else (compress_opts[shape_no % len(compress_opts)],):
@@ -184,7 +184,7 @@ def _work(item):
         for shape in sigs.call_shapes(s, surplus_pos=1, surplus_kw=1):
             npos, kws = shape
             args, kwargs = tuple(7 for _ in range(npos)), {k: 7 for k in kws}
-            if sigs.interpreter_binding(s, args, kwargs) is None:
+            if sigs.interpreter_binding(s, args, kwargs, method=(kind == "method")) is None:
                 continue
             exp = call_plain(kind, fn, args, dict(kwargs))
             for pas in (0, 1):
@@ -277,6 +277,78 @@ class Obj:
 
     def __call__(self, x):
         return ("call", self.v, _r(x))
+
+
+# same __name__, different qualified names (and one module-level function of that name)
+def conv(x):
+    return ("module conv", _r(x))
+
+
+class KA:
+    @staticmethod
+    def conv(x):
+        return ("KA.conv", _r(x))
+
+    @classmethod
+    def cm(cls, x):
+        return ("KA.cm", _r(x))
+
+    def meth(self, x):
+        return ("KA.meth", _r(x))
+
+    def __eq__(self, o):
+        return type(o) is type(self)
+
+    def __hash__(self):
+        return 3
+
+
+class KB:
+    @staticmethod
+    def conv(x):
+        return ("KB.conv", _r(x))
+
+    @classmethod
+    def cm(cls, x):
+        return ("KB.cm", _r(x))
+
+    def meth(self, x):
+        return ("KB.meth", _r(x))
+
+    def __eq__(self, o):
+        return type(o) is type(self)
+
+    def __hash__(self):
+        return 3
+
+
+def outer1():
+    def inner(x):
+        return ("outer1.inner", _r(x))
+    return inner
+
+
+def outer2():
+    def inner(x):
+        return ("outer2.inner", _r(x))
+    return inner
+
+
+def deco(tag):
+    def wrap(fn):
+        @functools.wraps(fn)
+        def wrapper(x):
+            return (tag, fn(x))
+        return wrapper
+    return wrap
+
+
+def base(x):
+    return ("base", _r(x))
+
+
+wrapped_a = deco("wrapper A")(base)
+wrapped_b = deco("wrapper B")(base)
 '''
 
 
@@ -300,6 +372,14 @@ def shared_directory(ctx):
         "methods-of-two-instances": [mod.Obj(1).m, mod.Obj(2).m, mod.Obj("1").m],
         "callable-instances": [mod.Obj(1), mod.Obj(2)],
         "function-and-partial": [mod.f, functools.partial(mod.f, 5)],
+        # how the cache directory of a function is derived: same __name__ under different qualified names
+        "staticmethods-same-name": [mod.KA.conv, mod.KB.conv, mod.conv],
+        "classmethods-same-name": [mod.KA.cm, mod.KB.cm],
+        "methods-same-name-two-classes": [mod.KA().meth, mod.KB().meth],
+        "nested-functions-same-name": [mod.outer1(), mod.outer2()],
+        # (functools.wraps wrappers are not grouped here: two wrappers of one function differing in a captured value are
+        #  closures over differing captured values - outside the stated domain -, and a wrapper next to the function it
+        #  wraps is two definitions under one name, which is C12's subject and known finding)
     }
     n = 0
     for gname, callables in groups.items():
